@@ -950,6 +950,15 @@ class CppFE:
             return o, buf.r
         return self.run(go)
 
+    def redecode(self, ctl, o, packet, data):
+        self.ctl = ctl
+
+        def go():
+            buf = CBuf(data)
+            self.call_method(o, 'decode', [buf])
+            return o, buf.r
+        return self.run(go)
+
     def reencode(self, ctl, o, cks_registered=True):
         self.ctl = ctl
 
